@@ -307,6 +307,27 @@ impl ReadFixedSizeDep for Chunk {
     }
 }
 
+/// A dependent fixed-size type whose own `read_dep` can fail although its window fits: `size` bytes, rejected
+/// (`BadValue`) when the first byte is odd. Element errors must surface per element (`read_item`, `iter_res`) and
+/// make `read_to_vec` fail as a whole — never a silently shortened vector.
+pub enum Picky {}
+impl ReadBinaryDep for Picky {
+    type Args<'a> = usize;
+    type HostType<'a> = &'a [u8];
+    fn read_dep<'a>(ctxt: &mut ReadCtxt<'a>, size: usize) -> Result<&'a [u8], ParseError> {
+        let s = ctxt.read_slice(size)?;
+        if s.first().map_or(false, |b| b & 1 == 1) {
+            return Err(ParseError::BadValue);
+        }
+        Ok(s)
+    }
+}
+impl ReadFixedSizeDep for Picky {
+    fn size(size: usize) -> usize {
+        size
+    }
+}
+
 // ---------------------------------------------------------------- interpreter
 
 struct St<'a> {
@@ -785,6 +806,38 @@ where
                         }
                     }
                     st.edge_access = true;
+                    if n <= 64 && size > 0 {
+                        // the same window as an array of elements whose own read can fail
+                        let window = &st.buf[wstart..wstart + n * size];
+                        let chunks: Vec<&[u8]> = window.chunks(size).collect();
+                        let bad: Vec<bool> = chunks.iter().map(|c| c[0] & 1 == 1).collect();
+                        let parr = ReadScope::new(window)
+                            .ctxt()
+                            .read_array_dep::<Picky>(n, size)
+                            .map_err(|e| fail("spurious-eof", format!("read_array_dep::<Picky>({}, {}) on an exact window failed: {:?}", n, size, e)))?;
+                        for i in 0..n {
+                            let got = parr.read_item(i);
+                            let ok = matches!(&got, Ok(s) if *s == chunks[i]);
+                            if (bad[i] && got.is_ok()) || (!bad[i] && !ok) {
+                                return Err(fail("dep-fallible-item", format!("fallible element {} of {:?}: read_item = {:?}, element rejects = {}", i, chunks, got, bad[i])));
+                            }
+                        }
+                        let each: Vec<Option<&[u8]>> = parr.iter_res().map(|r| r.ok()).collect();
+                        let exp: Vec<Option<&[u8]>> = (0..n).map(|i| if bad[i] { None } else { Some(chunks[i]) }).collect();
+                        if each != exp {
+                            return Err(fail("dep-fallible-iter_res", format!("iter_res over fallible elements {:?} expected {:?}", each, exp)));
+                        }
+                        match parr.read_to_vec() {
+                            Err(_) if bad.iter().any(|b| *b) => {}
+                            Ok(v) if !bad.iter().any(|b| *b) && v == chunks => {}
+                            other => {
+                                return Err(fail(
+                                    "dep-fallible-read_to_vec",
+                                    format!("read_to_vec over elements of which {} reject returned {:?} (expected {})", bad.iter().filter(|b| **b).count(), other, if bad.iter().any(|b| *b) { "Err" } else { "all elements" }),
+                                ))
+                            }
+                        }
+                    }
                     if n <= 64 {
                         let v: Vec<Option<&[u8]>> = arr.iter_res().map(|r| r.ok()).collect();
                         if v.len() != n || v.iter().enumerate().any(|(i, s)| *s != Some(&st.buf[wstart + i * size..wstart + i * size + size])) {
